@@ -51,7 +51,15 @@ func genC14(r *Rng, tier string) *Plan {
 				// (openssl -conv_form compressed|hybrid)
 				fp.PubForm = Pick(r, []string{"compressed", "hybrid"})
 			}
-			if r.Chance(1, 3) {
+			if r.Chance(1, 6) {
+				// key and request for it in one file (a request-first workflow with the key appended later,
+				// or `cat key.pem req.pem`): the key is key material and stays
+				fp.Parts = Pick(r, []string{"key+csr", "cert+key+csr"})
+				fp.Str = "printable"
+				if r.Bool() {
+					fp.Order = "key-first"
+				}
+			} else if r.Chance(1, 3) {
 				// a complete foreign artifact with the key block first
 				fp.Parts, fp.Order, fp.Str = "cert+key", "key-first", "printable"
 			} else if len(g.children(e)) == 0 && r.Chance(1, 2) {
@@ -251,6 +259,10 @@ func (o *c14Oracle) AfterRun(w *World, op *Op, res *RunResult) {
 		return
 	}
 	if !res.OK() {
+		if why := w.ModelInconsistent(); why != "" {
+			w.Harness = "generator produced a forest that is none: " + why
+			return
+		}
 		w.Fail("run-failed-on-runnable-world:"+res.FailClass(), "op %d flags %d stage=%s err=%s", op.ID, op.Flags, res.Stage, res.Err)
 		return
 	}
